@@ -78,10 +78,15 @@ def call_facade(method: str, ps: dict, call_args: list[str], reuse: bool = False
         return getattr(new_fluid(ps["fields"]), method)(*args)
     # the same (mutable dataclass) object was used before with other field values and the same call arguments: the
     # result must reflect the object's *current* temperature, gravities, GOR and salinity
-    other = {"temperature": ps["fields"]["temperature"] * 0.8 + 31.0, "api_gravity": ps["fields"]["api_gravity"] * 0.9 + 2.0,
-             "gas_specific_gravity": ps["fields"]["gas_specific_gravity"] * 0.93 + 0.02,
-             "solution_gor_initial": ps["fields"]["solution_gor_initial"] * 0.7 + 40.0,
-             "salinity": ps["fields"]["salinity"] * 0.5 + 1.3}
+    pert = {"temperature": lambda v: v * 0.8 + 31.0, "api_gravity": lambda v: v * 0.9 + 2.0,
+            "gas_specific_gravity": lambda v: v * 0.93 + 0.02, "solution_gor_initial": lambda v: v * 0.7 + 40.0,
+            "salinity": lambda v: v * 0.5 + 1.3}
+    names = sorted(pert)
+    # before the judged call the object differed in exactly ONE field (which one rotates from case to case), so a result
+    # memoised under a key that forgets that field would come back stale
+    which = names[int(abs(ps["fields"]["temperature"]) * 1000) % len(names)]
+    other = dict(ps["fields"])
+    other[which] = pert[which](other[which])
     fl = new_fluid(other)
     try:
         getattr(fl, method)(*args)
